@@ -140,6 +140,10 @@ def chk (s : St) : Option String :=
   if ns.any (fun m => sh.lnk m && sh.prev m != 0 && sh.st m != .member) then
     some "Members: a linked node with a prev is not in L" else
   if ns.any (fun m => sh.freed m && ((m == sh.tail && !sh.dead) || sh.st m == .member || sh.hnd m)) then some "a live node or a node with a handle is freed" else
+  if ns.any (fun m => sh.rc m != (if sh.lr m then 1 else 0) + (if sh.hr m then 1 else 0)) then some "refs: the count is not the number of owners (list, handle)" else
+  if ns.any (fun m => sh.freed m != (!sh.lr m && !sh.hr m)) then some "refs: a node is freed although it has an owner, or it leaked" else
+  if ns.any (fun m => (sh.st m == .member || (m == sh.tail && sh.tr) || sh.lnk m) && !sh.lr m) then some "refs: a member / the stub / a linked node is not owned by the list" else
+  if ns.any (fun m => (sh.hnd m || sh.hin m || (2 ≤ m && !sh.rd m)) && !sh.hr m) then some "refs: a handle does not own its node" else
   if (sh.popped ++ sh.removed ++ sh.L).length != sh.nid - 2 then some "a pushed node is in none or in several of L / popped / removed" else
   none
 
